@@ -48,6 +48,40 @@ theorem cancel_checkedout_eq_live (c : Cfg) (hc : WF c) (n : Nat) (s : State) (h
     (hq : quiescent s) : checkedout c s = s.out.length :=
   checkedout_eq_live c hc n s hr hq
 
+/-- **cancel_during_create**: a cancellation that lands inside the creation of a new
+    physical connection puts the thread where a failed creation puts it: the counter was
+    incremented (`slots = 1`) and nothing but `_dec_overflow` can follow. -/
+theorem cancel_during_create (c : Cfg) (s s' : State) (t : Nat)
+    (h : step c s t Label.ccancel = some s') :
+    s.pcs[t]? = some Pc.c0 ∧ s'.pcs[t]? = some Pc.cfail ∧ s'.overflow = s.overflow ∧
+    (∀ l s'', step c s' t l = some s'' → l = Label.cd) := by
+  obtain ⟨old, new, sh, hold, htr, rfl⟩ := step_eq h
+  have hlt := lt_length_of_getElem? hold
+  cases old <;> simp [Pool.trans] at htr
+  obtain ⟨rfl, rfl⟩ := htr
+  refine ⟨hold, by simp [hlt], rfl, ?_⟩
+  intro l s'' hs
+  obtain ⟨old2, new2, sh2, hold2, htr2, _⟩ := step_eq hs
+  simp [hlt] at hold2
+  subst hold2
+  cases l <;> simp [Pool.trans] at htr2
+  rfl
+
+/-- with cancellations during creation in the run, the counter still never exceeds its
+    limit and is exact at rest (the C25 invariant, which now quantifies over `ccancel` too) -/
+theorem overflow_sound_with_cancel_during_create (c : Cfg) (hc : WF c) (n : Nat) (s : State)
+    (hr : Reach c n s) :
+    (c.maxOv ≠ -1 → s.overflow ≤ c.maxOv) ∧ (quiescent s → checkedout c s = s.out.length) :=
+  ⟨overflow_le_max c hc n s hr, checkedout_eq_live c hc n s hr⟩
+
+/-- non-vacuity: the first checkout is cancelled inside the creation; after the
+    `_dec_overflow` the counter is back at its baseline -pool_size -/
+example : (run { size := 1, maxOv := 0, lifo := false } (init { size := 1, maxOv := 0, lifo := false } 1)
+    [(0, .cg), (0, .rv (-1)), (0, .qg false), (0, .qe), (0, .rv (-1)), (0, .ci), (0, .la), (0, .rv (-1)),
+     (0, .rmw (-1) 0), (0, .lr), (0, .ccancel), (0, .cd), (0, .la), (0, .rmw 0 (-1)), (0, .lr)] 0).toOption.map
+      (fun s => (s.overflow, s.pcs, checkedout { size := 1, maxOv := 0, lifo := false } s)) =
+    some (-1, [Pc.idle], 0) := by decide
+
 /-- non-vacuity: pool_size 1, max_overflow 0; task 0 holds the only connection, task 1
     waits and is cancelled, task 0 returns: one idle record, nothing checked out -/
 example : (run { size := 1, maxOv := 0, lifo := false } (init { size := 1, maxOv := 0, lifo := false } 2)
